@@ -221,7 +221,20 @@ func genInbound(rt *rapid.T, device uint16, toEquip bool, t4 time.Duration, allo
 			cur = cur[1:]
 		}
 		if e.gap == 0 {
-			e.gap = time.Duration(rapid.IntRange(0, 20).Draw(rt, "gapMs")) * time.Millisecond
+			// mostly quick; sometimes a long gap that is still inside T4 - several of those in one message
+			// add up to more than T4, and T4 counts from the PREVIOUS block, not from the first
+			switch g := rapid.IntRange(0, 9).Draw(rt, "gapKind"); {
+			case g == 0:
+				e.gap = t4 * 6 / 10
+			case g == 1:
+				e.gap = t4 * 8 / 10
+			case g == 2 && !allowCorrupt: // injected clock only: the line's 10 ms poll blurs the last millisecond
+				e.gap = t4 - time.Millisecond
+			case g == 3 && !allowCorrupt:
+				e.gap, e.what = t4+time.Millisecond, e.what+"+just-past-T4"
+			default:
+				e.gap = time.Duration(rapid.IntRange(0, 20).Draw(rt, "gapMs")) * time.Millisecond
+			}
 		}
 		if e.valid {
 			b := e.blk
@@ -241,7 +254,7 @@ func frameOf(m *e4.Message) []byte {
 }
 
 func TestC17Assembler(t *testing.T) {
-	ev.Rule("inbound block sequences (1-25 events over: valid next, duplicate of the last accepted block, skipped number, changed header field mid-message, wrong device, wrong direction, block 0 lone / non-lone, next block after a 3xT4 gap, a new message cutting in) with an injected clock through the REAL assembler (hook), both roles; oracle: the delivered messages equal, byte for byte and in order, those of the reference E4 section 9.4 assembler; non-trivial = a message spans >= 2 blocks, or >= 1 non-valid block is followed by a delivered message")
+	ev.Rule("inbound block sequences (1-25 events over: valid next, duplicate of the last accepted block, skipped number, changed header field mid-message, wrong device, wrong direction, block 0 lone / non-lone, next block after a 3xT4 gap, a new message cutting in; gaps of 0-20 ms, 0.6 T4, 0.8 T4, T4 - 1 ms, T4 + 1 ms, so that one message may take longer than T4 in total) with an injected clock through the REAL assembler (hook), both roles; oracle: the delivered messages equal, byte for byte and in order, those of the reference E4 section 9.4 assembler; non-trivial = a message spans >= 2 blocks, or >= 1 non-valid block is followed by a delivered message")
 	vt.Check(t, 20000, 500000, func(rt *rapid.T) {
 		device := uint16(rapid.IntRange(0, 0x7fff).Draw(rt, "device"))
 		isEquip := rapid.Bool().Draw(rt, "equip")
